@@ -22,7 +22,7 @@ EXPLANATION = (
     'candidates are validated before a value spec is bound, and bound tests '
     'use `is not None` (0 is a bound).  The decode/encode inverse law is not decided.')
 FLOORS = {'C13.g': 1, 'C13.r': 15, 'C13.a': 2, 'C13.b': 3, 'C13.c': 2, 'C13.d': 2, 'C13.e': 3, 'C13.z': 2, 'C13.f': 1}
-FILES = ['pyglove/core/hyper/object_template.py', 'pyglove/core/hyper/categorical.py',
+FILES = ['pyglove/core/utils/hierarchical.py', 'pyglove/core/geno/base.py', 'pyglove/core/hyper/object_template.py', 'pyglove/core/hyper/categorical.py',
          'pyglove/core/hyper/numerical.py', 'pyglove/core/hyper/custom.py',
          'pyglove/core/hyper/base.py', 'pyglove/core/hyper/iter.py',
          'pyglove/core/hyper/derived.py']
@@ -314,9 +314,163 @@ def rule_g(ctx):
          '; '.join(bad) or 'no rebind found in hyper')
 
 
+def rule_h(ctx):
+  """Encoding never modifies the template.  ObjectTemplate.encode walks the
+  template with utils.merge_tree(<template>, <input>, merge_fn) - a MUTATING merge
+  whose dest is the template itself; it leaves the template alone only because its
+  merge_fn returns the template's own node (or raises).  That argument needs
+  every store into `dest` inside merge_tree and its helpers to store what
+  merge_fn decided: (1) every helper merge_tree dispatches to receives merge_fn;
+  (2) every value stored into dest (subscript store / append) has a definition
+  that comes from merge_fn(...) or a recursive merge_tree(...)."""
+  idx = ctx.index
+  HI_ = 'pyglove.core.utils.hierarchical.'
+  enc = idx.func('pyglove.core.hyper.object_template.ObjectTemplate.encode')
+  uses = [c for c in A.calls_in(enc.node) if (A.call_name(c) or '').endswith('merge_tree')]
+  if not uses:
+    ctx.ob('C13.h', 'ObjectTemplate.encode#walk', True, 'encode does not walk the template with a mutating merge', enc.loc)
+    return
+  mt = idx.func(HI_ + 'merge_tree')
+  fn_param = 'merge_fn'
+  helpers = []
+  for c in A.calls_in(mt.node):
+    d = A.call_name(c) or ''
+    h = idx.find_func(HI_ + d) if d.startswith('_merge') else None
+    if h is None:
+      continue
+    helpers.append(h)
+    passes = any(isinstance(a, ast.Name) and a.id == fn_param for a in c.args) or any(
+        kw.arg == fn_param for kw in c.keywords)
+    ctx.ob('C13.h', f'merge_tree->{h.name}#merge_fn', passes,
+           'the helper merge_tree dispatches to is given merge_fn', f'{mt.module.relpath}:{c.lineno}',
+           f'`{A.unparse(c, 70)}` drops merge_fn: the helper writes the source into dest unasked - '
+           f't.try_encode({{\'a\': {{0: 5}}}}) on a template with a list at `a` replaces the placeholder a[0] by 5')
+  if len(helpers) < 2:
+    raise AnalysisError('merge_tree: helpers not found')
+  # (3) the walk follows the template's order: encode appends the child DNAs as merge_fn is
+  # called, and decode reads them in template order - so keys present on both sides are visited
+  # in the order of dest, not in the order the input dict happens to have
+  for h in helpers:
+    dest, src = h.node.args.args[0].arg, h.node.args.args[1].arg
+    nlp = 0
+    for lp in sorted([n for n in ast.walk(h.node) if isinstance(n, ast.For)], key=lambda n: n.lineno):
+      if not any((A.call_name(c) or '') == 'merge_tree' for c in A.calls_in(lp)):
+        continue
+      nlp += 1
+      def order_of(e, depth=0):
+        """'dest' / 'src' / None: whose iteration order the iterable follows first."""
+        if isinstance(e, ast.Name) and depth < 2:
+          ds = [v for _, v in D.defs_of(h.node, e.id) if v is not None]
+          return order_of(ds[0], depth + 1) if ds else None
+        if isinstance(e, (ast.ListComp, ast.GeneratorExp)):
+          return order_of(e.generators[0].iter, depth)
+        if isinstance(e, ast.Call) and A.call_name(e) in ('sorted', 'list', 'tuple') and e.args:
+          return 'sorted' if A.call_name(e) == 'sorted' else order_of(e.args[0], depth)
+        names = A.names_read(e)
+        if dest in names and src not in names:
+          return 'dest'
+        if src in names:
+          return 'src'
+        return None
+      o = order_of(lp.iter)
+      if h.name.endswith('into_dict'):
+        ctx.ob('C13.h', f'{h.name}#visit-order:{nlp}', o in ('dest', 'sorted'),
+               'keys present in both dicts are visited in the order of dest (the template)', f'{h.module.relpath}:{lp.lineno}',
+               f'the loop follows the order of `{src}`: t.encode({{\'b\': 2, \'a\': 1}}) returns the child DNAs in input order, '
+               f'DNA([1, 0]), which decodes to a different value')
+  for h in helpers:
+    dest = h.node.args.args[0].arg
+    stores = []
+    for n in ast.walk(h.node):
+      if isinstance(n, ast.Assign) and isinstance(n.targets[0], ast.Subscript) and A.unparse(n.targets[0].value) == dest:
+        stores.append((n.lineno, n.value))
+      if isinstance(n, ast.Call) and A.call_name(n) == f'{dest}.append' and n.args:
+        stores.append((n.lineno, n.args[0]))
+    bad = []
+    for ln, v in stores:
+      def decided(e, depth=0):
+        if isinstance(e, ast.Call) and (A.call_name(e) or '') in (fn_param, 'merge_tree'):
+          return True
+        if isinstance(e, ast.Name) and depth < 2:
+          return any(val is not None and decided(val, depth + 1) for _, val in D.defs_of(h.node, e.id))
+        return False
+      if not decided(v):
+        bad.append(f'line {ln}: `{A.unparse(v, 40)}`')
+    ctx.ob('C13.h', f'{h.name}#stores', bool(stores) and not bad,
+           'every value stored into dest was decided by merge_fn (directly or through merge_tree)', h.loc,
+           'stored without asking merge_fn: ' + '; '.join(bad))
+
+
+def rule_i(ctx):
+  """An option reaches the code that implements it.  `pg.materialize(value, dict,
+  use_literal_values=True)` promises to read the dict values as candidates' literal
+  values; the only implementation of that reading is `DNA.from_dict(...,
+  use_ints_as_literals=...)`.  Every function on the way (materialize ->
+  DNA.from_parameters -> DNA.from_dict) hands the flag on: none deletes it, and
+  the final call passes it as `use_ints_as_literals`."""
+  idx = ctx.index
+  chain = [('pyglove.core.hyper.object_template.materialize', 'use_literal_values', 'from_parameters', 'use_literal_values'),
+           ('pyglove.core.geno.base.DNA.from_parameters', 'use_literal_values', 'from_dict', 'use_ints_as_literals')]
+  for fq, param, callee, kw in chain:
+    f = idx.find_func(fq)
+    if f is None:
+      raise AnalysisError(f'{fq} vanished')
+    if param not in A.param_names(f.node):
+      raise AnalysisError(f'{fq}: parameter {param} vanished')
+    deleted = any(isinstance(n, ast.Delete) and any(isinstance(t, ast.Name) and t.id == param for t in n.targets)
+                  for n in ast.walk(f.node))
+    calls = [c for c in A.calls_in(f.node) if (A.call_name(c) or '').split('.')[-1] == callee]
+    passed = any(any(k.arg == kw and param in A.names_read(k.value) for k in c.keywords) or
+                 any(isinstance(a, ast.Name) and a.id == param for a in c.args) for c in calls)
+    ctx.ob('C13.i', f'{f.qualname}#{param}', bool(calls) and passed and not deleted,
+           f'`{param}` is handed on to {callee}({kw}=...)', f.loc,
+           (f'`del {param}`: ' if deleted else '') + f'{callee} is called without the flag: integer literal values in the '
+           f'dict are read as candidate indices (materialize(v, dna.to_dict(value_type=\'literal\'), use_literal_values=True) '
+           f'picks other candidates or raises)')
+
+
+def rule_j(ctx):
+  """try_encode is how a choice searches its candidates ("try to encode a value
+  without raising"): a candidate that cannot encode the value must read as "no
+  match", whatever exception its encode uses to say so.  The exception classes
+  raised by design in the encode functions of the hyper package (encode,
+  custom_encode, the nested _encode) are all caught by ObjectTemplate.try_encode."""
+  idx = ctx.index
+  te = idx.func('pyglove.core.hyper.object_template.ObjectTemplate.try_encode')
+  caught = set()
+  for n in ast.walk(te.node):
+    if isinstance(n, ast.ExceptHandler) and n.type is not None:
+      ts = n.type.elts if isinstance(n.type, ast.Tuple) else [n.type]
+      caught |= {A.unparse(t).split('.')[-1] for t in ts}
+  raised = {}
+  for f in idx.all_funcs():
+    if not f.module.name.startswith('pyglove.core.hyper.') or f.module.relpath.endswith('_test.py'):
+      continue
+    if f.name not in ('encode', 'custom_encode', '_encode'):
+      continue
+    for r in A.walk_local(f.node):
+      if isinstance(r, ast.Raise) and r.exc is not None:
+        e = r.exc.func if isinstance(r.exc, ast.Call) else r.exc
+        nm = A.unparse(e).split('.')[-1]
+        if nm[:1].isupper():
+          raised.setdefault(nm, f'{f.module.relpath}:{r.lineno}')
+  if len(raised) < 2:
+    raise AnalysisError(f'hyper encode functions: raised exception classes not found ({raised})')
+  broad = bool({'Exception', 'BaseException'} & caught)
+  for nm, loc in sorted(raised.items()):
+    ctx.ob('C13.j', f'try_encode#catches:{nm}', broad or nm in caught,
+           f'{nm} raised by an encode of the hyper package reads as "no match" in try_encode', loc,
+           f'try_encode catches {sorted(caught)} only: a candidate whose encode raises {nm} aborts the search, so '
+           f'the sibling candidate that does match is never tried (t.encode(pg.Dict(x=\'b\')) raises for '
+           f'oneof([CustomHyperWithoutEncode(), \'b\']))')
+
+
 def run(ctx):
   ctx.consult(*FILES)
   rule_g(ctx)
+  rule_h(ctx)
+  rule_i(ctx)
+  rule_j(ctx)
   from sa.rejections import REJECTIONS as _REJ
   S.rejection_census_obligations(ctx, 'C13.r', _REJ['C13'], floor=15)
   rule_a(ctx)
